@@ -120,6 +120,9 @@ impl BaudEmulation {
 /// Deepest nesting of macro invocations (DECINVM inside a macro body, inside a macro body, ...).
 pub const MAX_MACRO_NESTING: usize = 16;
 
+/// Largest hex macro (DECDMAC with repeat groups, expanded) in characters: DEC terminals report a bounded macro space.
+pub const MAX_MACRO_SIZE: usize = 65536;
+
 pub struct Parser {
     pub(crate) state: EngineState,
     saved_pos: Position,
